@@ -536,12 +536,16 @@ class Interp:
         if self.depth > self.MAX_DEPTH:
             self.depth -= 1
             raise Unsupported("call depth bound exceeded")
+        if not hasattr(self, "_module_stack"):
+            self._module_stack = []
+        self._module_stack.append(module)
         try:
             self.exec_block(body, env, module)
         except _Return as r:
             return r.v
         finally:
             self.depth -= 1
+            self._module_stack.pop()
         return None
 
     # ------------------------------------------------------------------
@@ -1040,7 +1044,7 @@ class Interp:
                         "list", "enumerate", "zip", "sum", "max", "min",
                         "isinstance", "hasattr", "str", "super", "slice",
                         "dict", "set", "sorted", "reversed", "bool",
-                        "getattr", "callable", "type", "map"):
+                        "getattr", "callable", "type", "map", "eval"):
                 return Builtin(name)
             if name in ("True", "False", "None"):
                 return {"True": True, "False": False, "None": None}[name]
@@ -1098,8 +1102,25 @@ class Interp:
             return o
         if isinstance(o, Opaque):
             return Opaque(o.tag + "." + name)
-        if isinstance(o, str) and name in ("format", "join", "upper",
-                                           "lower", "strip"):
+        if isinstance(o, str) and name == "format":
+            def fmt(a, k, n, o=o):
+                def plain(v):
+                    if isinstance(v, Poly) and v.is_const():
+                        v = v.const_value()
+                    if isinstance(v, Fraction) and v.denominator == 1:
+                        v = int(v)
+                    return v
+                vals = [plain(v) for v in a]
+                if not k and all(isinstance(v, (int, str)) and
+                                 not isinstance(v, bool) for v in vals):
+                    try:
+                        return o.format(*vals)
+                    except (IndexError, KeyError, ValueError):
+                        raise Raised("str.format")
+                return "<str>"
+            return PyFunc(fmt)
+        if isinstance(o, str) and name in ("join", "upper", "lower",
+                                           "strip"):
             return PyFunc(lambda a, k, n: "<str>")
         if isinstance(o, dict) and name in ("get", "items", "keys", "values"):
             return Builtin("dict." + name, o)
@@ -1200,6 +1221,9 @@ class Interp:
                     return r
             raise Unsupported(f"construction of {f.cls.name}", node)
         raise Unsupported(f"call of {type(f).__name__}", node)
+
+    def _cur_module(self, node):
+        return getattr(self, "_module_stack", [None])[-1]
 
     def builtin(self, f, args, kwargs, node):
         n = f.name
@@ -1342,6 +1366,17 @@ class Interp:
             d = dict(args[0]) if args else {}
             d.update(kwargs)
             return d
+        if n == "eval":
+            # eval of a string the code has just formatted from concrete
+            # numbers (power-basis generators): parsed, never executed
+            srcs = args[0]
+            if not isinstance(srcs, str) or "<str>" in srcs:
+                raise Unsupported("eval of a non-literal string", node)
+            try:
+                tree = ast.parse(srcs, mode="eval")
+            except SyntaxError:
+                raise Raised("SyntaxError in eval")
+            return self.eval(tree.body, {}, self._cur_module(node))
         if n == "sorted":
             return sorted(args[0])
         if n == "reversed":
@@ -1472,6 +1507,10 @@ class Interp:
                             for i in range(n)])
         if fn == "arange" and all(isinstance(a, int) for a in args):
             return Arr(list(range(*args)))
+        if fn in ("max", "min", "amax", "amin") and len(args) == 1 and \
+                not kwargs and isinstance(args[0], (list, tuple)) and all(
+                    isinstance(v, (int, Fraction)) for v in args[0]):
+            return (max if fn in ("max", "amax") else min)(args[0])
         if fn == "cross" and len(args) == 2 and "axis" not in kwargs:
             a, b = args
             if isinstance(a, Arr) and isinstance(b, Arr) and \
